@@ -38,6 +38,10 @@ def scenarios(tier):
     out.append(('%s (h) 1 endpoint, 2 calls whose deadlines fall exactly on a timer tick' % stack,
                 {'stack': stack, 'endpoints': 1, 'ops': [('call', 'h0', 0.25), ('call', 'h1', 0.5)], 'faults': ['drop', 'stall'],
                  'open_timeout': 0, 'timeout': 0.5}))
+  # two minutes into the client's life: the aperture balancer's periodic jitter (first due at +120 s) swaps members while a call is in flight
+  out.append(('mux (j) 2 endpoints, a call in flight when the aperture jitter comes due',
+              {'stack': 'mux', 'endpoints': 2, 'ops': [('at', 119.9025), ('call', 'j0', 0.3025), ('call', 'j1', 0.5025)],
+               'faults': ['drop', 'stall'], 'timeout': 0.5025, 'horizon': 125.0, 'max_steps': 900, '_bound': 2}))
   out.append(('thrift (c) 1 endpoint, pool max 1 / queue 1, 3 calls',
               {'stack': 'thrift', 'endpoints': 1, 'ops': [('call', 'c0'), ('call', 'c1', 0.2525), ('call', 'c2')],
                'pool': {'max_watermark': 1, 'max_queue_len': 1}, 'faults': FAULTS, 'timeout': 0.5025}))
